@@ -152,6 +152,7 @@ def run(ctx, rep):
 
     check_as_image(prog, rep, DATA)
     check_check_n(prog, rep)
+    check_writers(prog, rep, DATA, sps)
     # W10: the compile-time size guard really stops the build (compile_fail witnesses with building twins)
     import witness
     witness.check(rep, "W10", ["W10TooSmall", "W10Exact", "W10Oversized", "W10SubByteTooSmall", "W10SubByteExact"])
@@ -461,3 +462,82 @@ def check_check_n(prog, rep):
     good = len(ctors) == 1 and all(uses_check.values())
     rep.check(good, "R10.5", "constructors", "Framebuffer must be constructible only by `new`, which evaluates CHECK_N; constructors found: %s" % names,
               detail=names)
+
+
+def _fb_local(f, l):
+    ty = f.body["locals"][l]["ty"] if l < len(f.body["locals"]) else None
+    while isinstance(ty, dict) and "ref" in ty:
+        ty = ty["ref"]
+    return isinstance(ty, dict) and ty.get("adt") == FB
+
+
+def _through_data(f, pl, DATA):
+    """does the place go through the `data` field of a Framebuffer?  -> None / 'whole' / 'part'"""
+    if not _fb_local(f, pl["l"]):
+        return None
+    p = [e for e in pl["p"] if e != "*"]
+    if p and isinstance(p[0], dict) and p[0].get("f") == DATA:
+        return "whole" if len(p) == 1 else "part"
+    return None
+
+
+def check_writers(prog, rep, DATA, sps):
+    """R10.7 (who may write): the backing array is mutated only by the set_pixel impls (whose writes R10.3/R10.6 bound and
+    place), by helpers introduced for them, and handed out by the public data_mut accessor; nothing else in the library
+    assigns into, mutably borrows or obtains (via data_mut) the array — such a writer could modify bytes beyond the used
+    prefix or bytes of other pixels without any of the rules above seeing it."""
+    verified = {f.id for f in sps}
+    found = {}
+    for f in prog.fns.values():
+        if not f.body or "::tests::" in f.id or "::mock_display::" in f.id:
+            continue
+        for blk in f.body["blocks"]:
+            for s_ in blk["s"]:
+                if s_["k"] != "assign":
+                    continue
+                k = _through_data(f, s_["place"], DATA)
+                if k:
+                    found.setdefault(f.id, []).append(("assigns into the array", s_.get("sp", ""), "part"))
+                rv = s_["rv"]
+                if rv["k"] in ("ref", "addr_of", "raw") and rv.get("mut") and "place" in rv:
+                    k = _through_data(f, rv["place"], DATA)
+                    if k:
+                        found.setdefault(f.id, []).append(("borrows the %s mutably" % ("whole array" if k == "whole" else "array (part)"), s_.get("sp", ""), k))
+            t = blk["t"]
+            if t and t["k"] == "call":
+                r = t["f"].get("resolved") or t["f"]
+                if r.get("path", "").endswith("Framebuffer::<C, R, BO, WIDTH, HEIGHT, N>::data_mut") or (t["f"].get("name") == "data_mut" and "framebuffer" in r.get("path", "")):
+                    found.setdefault(f.id, []).append(("obtains the array through data_mut()", t.get("sp", ""), "whole"))
+    callers = {}
+    for g in prog.fns.values():
+        if not g.body or "::tests::" in g.id:
+            continue
+        for blk in g.body["blocks"]:
+            t = blk["t"]
+            if t and t["k"] == "call":
+                r = t["f"].get("resolved") or t["f"]
+                for h in prog.by_path.get(r.get("path", ""), []):
+                    callers.setdefault(h.id, set()).add(g.root_fn().id)
+
+    def ok(fid, depth=0):
+        f = prog.fns[fid].root_fn()
+        if f.id in verified:
+            return True
+        if f.name == "data_mut" and f.impl and prog.impls[f.impl]["self_ty"].get("adt") == FB and not prog.impls[f.impl].get("trait"):
+            return True   # the public accessor: hands the array to the caller by contract
+        if prog.is_new(f) and depth < 3:
+            cs = callers.get(f.id, set())
+            return bool(cs) and all(ok(c, depth + 1) for c in cs)
+        return False
+
+    rep.floor("R10.7", "functions that mutate Framebuffer::data", len(found), 11)
+    for fid in sorted(found):
+        f = prog.fns[fid]
+        if ok(fid):
+            rep.ok("R10.7", "writer:" + f.key().replace(FB, "Framebuffer")[-90:], at=f.span, fn=f.path)
+            continue
+        what, sp, k = found[fid][0]
+        whole_to_call = any(k_ == "whole" for _, _, k_ in found[fid])
+        rep.check(False, "R10.7", "writer:" + f.key().replace(FB, "Framebuffer")[-90:],
+                  "%s %s outside set_pixel: bytes beyond the used prefix (or of other pixels) can change without the bounds and layout rules seeing it" % (f.path.split("::")[-1], what),
+                  status="refuted" if whole_to_call else "undecided", at=sp or f.span, fn=f.path)
